@@ -1,7 +1,7 @@
 /-
 Executable model of the EDF codec (net/edf/{encode,decode,register,init}.go) — the code AS IT IS after the
-`fix:` commits for D3/D4/D4b/D26/D31 (see known_findings.json); behaviour the property forbids is mirrored, not
-tidied (map with array-typed key, zero-width elements, 2^28-element array descriptors, ...).
+`fix:` commits for D3/D4/D4b/D26/D27/D31 (see known_findings.json); behaviour the property forbids is mirrored, not
+tidied (zero-width elements, 2^28-element array descriptors, nested slice counts, ...).
 
   Ty      Go type algebra seen by the codec (reflect.Type): primitives, framework identifiers, time, error, any,
           unnamed slice/array/map, registered named types, registered structs, registered (Binary)Marshalers
@@ -420,7 +420,8 @@ def getReg (o : Opts) (bs : Bytes) : Res (Ty × Bytes) :=
 def uintptrLimit : Nat := 18446744073709551616
 
 /-- decodeType(fold) (decode.go:146): returns the type and what is left of the fold.
-    Slices, arrays and maps insist on consuming the whole fold and return nothing. -/
+    Slices and maps insist on consuming the whole fold and return nothing; an array returns what follows its
+    element type. -/
 def decTy (o : Opts) : Nat → Bytes → Res (Ty × Bytes)
   | 0, _ => .err
   | _, [] => .err
@@ -449,9 +450,9 @@ def decTy (o : Opts) : Nat → Bytes → Res (Ty × Bytes)
         | some (n, r') =>
           match decTy o fuel r' with
           | .ok (t, f) =>
-            if f ≠ [] then .err
-            else if t.size > 0 ∧ n * t.size ≥ uintptrLimit then .panic   -- reflect.ArrayOf: array size would exceed virtual address space
-            else .ok (.array n t, [])
+            -- what follows the element type belongs to the caller (an array type can be a map key; fix 07a18f8)
+            if t.size > 0 ∧ n * t.size ≥ uintptrLimit then .panic   -- reflect.ArrayOf: array size would exceed virtual address space
+            else .ok (.array n t, f)
           | .err => .err
           | .panic => .panic
     else if b = edtReg then getReg o r
@@ -474,7 +475,7 @@ def getDecoder (o : Opts) (dt : Bool) : Bytes → Res (Option Ty × Bytes × Boo
       | some (n, r') =>
         if lenLt r' n then .err
         else match decTy o (n + 1) (r'.take n) with
-          | .ok (t, _) => .ok (some t, r'.drop n, dt)
+          | .ok (t, f) => if f ≠ [] then .err else .ok (some t, r'.drop n, dt)   -- leftover fold bytes are refused
           | .err => .err
           | .panic => .panic
     else if b = edtNil then .ok (none, r, dt)
